@@ -1,6 +1,17 @@
-(* Tie/All.v — every tie file: generated code (Gen/Code/<Eco>.v, tools/gen/code.go) = model. *)
+(* Tie/All.v — every tie file: generated code (Gen/Code/<Eco>.v, tools/gen/code.go) = model.
+   Tie/<Eco>.v holds the VERSION-level ties (compareInt, compare, compareQualifiers,
+   getQualifierPrecedence, string), Tie/<Eco>Range.v the RANGE-level ties (matches, contains,
+   satisfies..., caret, tilde).  A range file may depend on its version file, never the reverse. *)
 From Verif.Tie Require Tactics.
+(* version level *)
 From Verif.Tie Require Apache Mattermost Cran Github Gentoo Hex.
 From Verif.Tie Require Npm Cargo Semver Nuget.
 From Verif.Tie Require Debian Rpm Alpm.
-From Verif.Tie Require Composer Maven.
+From Verif.Tie Require Composer.
+(* range level *)
+From Verif.Tie Require ApacheRange MattermostRange CranRange GithubRange GentooRange HexRange.
+From Verif.Tie Require CargoRange NugetRange.
+From Verif.Tie Require DebianRange RpmRange AlpmRange.
+From Verif.Tie Require MavenRange.
+From Verif.Tie Require Pypi Golang Alpine Conan Gem.
+From Verif.Tie Require PypiRange GolangRange AlpineRange ConanRange GemRange.
